@@ -46,3 +46,26 @@ Theorem C32_after_history : forall (info : node_info) (h : list op) (base : Z),
   ((~ exists c, roomy' c) -> keys share = keys (nr_cpumap (ni_cap info))).
 Proof. exact remap_after_history. Qed.
 Print Assumptions C32_after_history.
+
+(* the engine half (calcium's doRemapResource): every workload of the remap
+   result whose engine update succeeds ends up with exactly the cpu map computed
+   for it; bound workloads (not in the result) and workloads whose update fails
+   keep what they had; the iteration order of the Go map is irrelevant *)
+From Verif Require Import Cobalt.RemapPush Cobalt.RemapPushProofs.
+From Coq Require Import Permutation.
+
+Theorem C32_push_reaches : forall fails remap, NoDup (map fst remap) ->
+  forall e i m, In (i, m) remap -> fails i = false -> eng_get (push_all fails e remap) i = Some m.
+Proof. exact push_all_reaches. Qed.
+Print Assumptions C32_push_reaches.
+
+Theorem C32_push_untouched : forall fails remap e i,
+  ~ In i (map fst remap) \/ fails i = true -> eng_get (push_all fails e remap) i = eng_get e i.
+Proof. exact push_all_untouched. Qed.
+Print Assumptions C32_push_untouched.
+
+Theorem C32_push_order_indep : forall fails remap remap' e i,
+  NoDup (map fst remap) -> Permutation remap remap' ->
+  eng_get (push_all fails e remap) i = eng_get (push_all fails e remap') i.
+Proof. exact push_all_order_indep. Qed.
+Print Assumptions C32_push_order_indep.
